@@ -542,12 +542,15 @@ Proof.
   intros Hinv. unfold protect_offline. destruct (get_target_sd sid) as [sd|]; [|exact Hinv].
   unfold protection_gke_from_cache. destruct rid as [rid|]; [|exact Hinv].
   destruct (interval_of_time_ns time_ns) as [[l0 l1] l2] eqn:Ei. destruct (interval_l12_range _ _ _ _ Ei) as [H1 H2].
-  destruct (cc_get_key c cache sd rid l0 l1 l2) as [[[e|] c1]|] eqn:Eg; cbn [bind]; [| |exact Hinv];
+  destruct (cc_get_key c cache sd rid l0 l1 l2) as [[[e|] c1]|] eqn:Eg; cbn [bind];
+    [| |cbn [snd]; unfold protection_lookup_cache; rewrite Ei, Eg; exact Hinv];
     destruct (get_key_inv _ _ _ _ _ _ _ _ Hinv Eg) as [Hc1 Hf]; [|exact Hc1].
   destruct (Hf e eq_refl) as (Ef & Ek & El & Hcov). specialize (Hcov ltac:(lia) ltac:(lia)).
-  destruct (KDFParameters_unpack (gke_kdf_params e)) as [hn|]; [|exact Hinv]. cbn [bind].
-  destruct (hash_algorithm hn) as [h0|]; [|exact Hinv]. cbn [bind].
-  destruct (compute_l2_key c h0 l1 l2 e) as [l2k|]; [|exact Hinv]. cbn [bind snd].
+  assert (Elk : protection_lookup_cache c cache (Some rid) sd time_ns = c1)
+    by (unfold protection_lookup_cache; rewrite Ei, Eg; reflexivity).
+  destruct (KDFParameters_unpack (gke_kdf_params e)) as [hn|]; [|cbn [bind snd]; rewrite Elk; exact Hc1]. cbn [bind].
+  destruct (hash_algorithm hn) as [h0|]; [|cbn [bind snd]; rewrite Elk; exact Hc1]. cbn [bind].
+  destruct (compute_l2_key c h0 l1 l2 e) as [l2k|]; [|cbn [bind snd]; rewrite Elk; exact Hc1]. cbn [bind snd].
   match goal with |- cache_inv (if ?b then _ else _) => destruct b end; [exact Hc1|].
   rewrite (store_key_same c1 sd _ e); [exact Hc1|cbn [gke_rkid gke_l0]; exact Ef| |exact c].
   cbn [gke_l1 gke_l2]. unfold covers in Hcov. cbn [env_of e_l1 e_l2] in Hcov. lia.
